@@ -25,7 +25,7 @@ def jobs(tier):
     return [
         job("var-fun", 4 if q else 5, [1], ["var", "fundecl"]),
         job("kinds", 3 if q else 4, [2], ["var", "field", "bitfield", "typedecl", "alias", "ptemplate", "stemplate"],
-            names=(1, 2), types=(1,) if q else (1, 2)),
+            names=(1, 2), types=(1, 2)),
         job("two-scopes", 3 if q else 4, [1, 2], ["var", "typedecl", "fundecl"], names=(1,), types=(1, 2)),
         job("homogeneous", 4 if q else 5, [3, 4, 5], ["param", "enumerator", "base"], names=(1, 2, 3), types=(1, 2)),
     ]
